@@ -20,7 +20,7 @@ PROPS = {
     'C01': dict(streams=[('addsub', G.gen_addsub, 60000, 1500000), ('mul', G.gen_mul, 40000, 800000),
                          ('div', G.gen_div, 40000, 800000), ('sqrt', G.gen_sqrt, 20000, 400000),
                          ('operators', G.gen_operators, 20000, 200000)]),
-    'C02': dict(streams=[('fma', G.gen_fma, 120000, 2500000)]),
+    'C02': dict(streams=[('fma', G.gen_fma, 120000, 2500000), ('tiny_after', G.gen_tiny_after, 40000, 800000, dict(bin='ta'))], extra_props=['C02ta']),
     'C03': dict(streams=[('cmp', G.gen_cmp, 400000, 6000000), ('ops', G.gen_ops, 40000, 600000)]),
     'C04': dict(streams=[('parse', G.gen_parse, 160000, 2500000)]),
     'C05': dict(streams=[('fmt', G.gen_fmt, 40000, 400000), ('roundtrip', G.gen_roundtrip, 40000, 600000), ('serde', G.gen_serde, 30000, 300000)]),
@@ -41,7 +41,7 @@ PROPS = {
     'C17': dict(streams=[('next', G.gen_next, 120000, 2000000)]),
     'C18': dict(streams=[('total', G.gen_total, 150000, 3000000)]),
     'C19': dict(streams=[('dpd', G.gen_dpd, 120000, 2000000)]),
-    'C20': dict(streams=[('ops', G.gen_ops, 60000, 1000000), ('hash', G.gen_hash, 60000, 1000000)]),
+    'C20': dict(streams=[('ops', G.gen_ops, 60000, 1000000), ('hash', G.gen_hash, 60000, 1000000), ('hashslice', G.gen_hashslice, 20000, 300000)]),
 }
 
 for _k, _v in TABLES.items(): PROPS[_k]['tables'] = _v
